@@ -9,7 +9,7 @@ from common import Driver, DriverFailure, digest
 
 LEVEL = "proof"
 MANIFEST = dict(
-    text='Machine-checked Lean 4 proof over a hand model of GeckoAsyncLocator.discover / _async_on_discovered, the hello consume loop  Session 4: the blocking locator runs for real (its engine and retry threads, its waiting loop, a scripted OS socket, scaled waits) and the time at which start_discovery(True) returns is checked for five reply patterns.'
+    text='Machine-checked Lean 4 proof over a hand model of GeckoAsyncLocator.discover / _async_on_discovered, the hello consume loop  Session 4: the blocking locator runs for real (its engine and retry threads, its waiting loop, a scripted OS socket, scaled waits) and the time at which start_discovery(True) returns is checked for five reply patterns. State inventory of both discovery callbacks (discovery_state_inventory).'
          'and GeckoHelloProtocolHandler.handle (waits from the regenerated config tables). For EVERY input sequence (arbitrary datagram '
          'bytes, arbitrary relative timing and order of the main loop, the consumer and the network, an event handler that may suspend '
          'arbitrarily long), by invariant induction: no identifier is listed twice; the list is exactly the first handled reply per '
@@ -717,7 +717,7 @@ D2_SCRIPT = {"responders": [_resp(1, b"Pool|Spa", {"0": [100]})], "arrivals": []
 
 
 def run(ctx):
-    st = translate.run(["ConfigTables"])
+    st = translate.run(["ConfigTables", "Skeletons"])
     ctx.cov["translator"] = st
     if st["ConfigTables"] != "ok":
         ctx.obligation_broken("translate:ConfigTables", st["ConfigTables"])
